@@ -229,6 +229,7 @@ package node
 //@ func discardingWhile [C05,C12]
 //@   requires[sel] 0 <= srcsel && srcsel <= 2
 //@   requires[ast] whileOK(w) && fl.Data().OpDepth == 0
+//@   requires[ctx] fl.Data().InFor ==> fl.Data().CtxLo <= fl.Data().CtxHi && fl.Data().CtxHi < fl.Data().CtxID
 //@   requires[cr]  crOK(cr)
 //@   modifies *cr.CS, allelems(*cr.CS), *cr.DS, allelems(*cr.DS), mapof(*cr.Dbg)
 //@   ensures[K2_code] csKept(cr) && csNewWF(cr)
@@ -237,6 +238,7 @@ package node
 //@ func pushingWhile [C05,C12]
 //@   requires[sel] 0 <= srcsel && srcsel <= 2
 //@   requires[ast] whileOK(w) && fl.Data().OpDepth == 0 && !fl.Data().Discard
+//@   requires[ctx] fl.Data().InFor ==> fl.Data().CtxLo <= fl.Data().CtxHi && fl.Data().CtxHi < fl.Data().CtxID
 //@   requires[cr]  crOK(cr)
 //@   modifies *cr.CS, allelems(*cr.CS), *cr.DS, allelems(*cr.DS), mapof(*cr.Dbg)
 //@   ensures[K2_code] csKept(cr) && csNewWF(cr)
